@@ -130,8 +130,28 @@ Definition rectb {A} (rows cols:nat) (t:list (list A)) : bool :=
 Definition cubeb (n nf:nat) (S:list (list (list Q))) : bool :=
   Nat.eqb (length S) n && forallb (fun r => Nat.eqb (length r) n && forallb (fun c => Nat.eqb (length c) nf) r) S.
 
+(* ---------- specification vocabulary used by the theorems of Properties/C20.v (Props; nothing is computed with them) ---------- *)
+Definition rect {A} (rows cols:nat) (t:list (list A)) : Prop :=
+  length t = rows /\ Forall (fun r => length r = cols) t.
+(* cell (i,o) is a retained pole (finite frequency) carrying label l *)
+Definition pole_with_label {X} (Fn:list (list (option X))) (Lab:list (list Z)) (l:Z) (rows cols i o:nat) : Prop :=
+  (i < rows)%nat /\ (o < cols)%nat /\ get2 Lab i o = Some l /\ exists f, get2 Fn i o = Some (Some f).
+(* marker m sits at (frequency of cell c, column of c times step) *)
+Definition marker_at {X} (Fn:list (list (option X))) (step:Z) (c:nat*nat) (m:X*Z) : Prop :=
+  get2 Fn (fst c) (snd c) = Some (Some (fst m)) /\ snd m = (Z.of_nat (snd c) * step)%Z.
+Definition pole2_with_label {X} (Fn Xi:list (list (option X))) (Lab:list (list Z)) (l:Z) (rows cols i o:nat) : Prop :=
+  pole_with_label Fn Lab l rows cols i o /\ exists d, get2 Xi i o = Some (Some d).
+Definition cluster_at {X} (Fn Xi:list (list (option X))) (c:nat*nat) (m:X*X) : Prop :=
+  get2 Fn (fst c) (snd c) = Some (Some (fst m)) /\ get2 Xi (fst c) (snd c) = Some (Some (snd m)).
+Definition is_max (l:list Q) (m:Q) : Prop := In m l /\ forall v, In v l -> v <= m.
+Definition cube (n nf:nat) (S:list (list (list Q))) : Prop :=
+  length S = n /\ Forall (fun r => length r = n /\ Forall (fun c => length c = nf) r) S.
+(* number of curves requested: None = inadmissible *)
+Definition requested (n:nat) (nSv:option Z) : option nat :=
+  match nSv with None => Some n | Some z => if Z.ltb z (Z.of_nat n) then Some (Z.to_nat z) else None end.
+
 (* ---------- printers ---------- *)
-Open Scope string_scope.
+Local Open Scope string_scope.
 Definition show_fz (l:list (Q*Z)) : string := showL (fun p => showQ (fst p) ++ "," ++ showZ (snd p)) " " l.
 Definition show_ff (l:list (Q*Q)) : string := showL (fun p => showQ (fst p) ++ "," ++ showQ (snd p)) " " l.
 Definition show_stab (r:list (Q*Z) * list (Q*Z)) : string := show_fz (fst r) ++ "|" ++ show_fz (snd r).
